@@ -72,3 +72,12 @@ Example C18_example :
                                     (GM (GV (7 # 2) 0 0) (GV 0 (7 # 2) 0) (GV 0 0 (7 # 2))) (GM (GV (2 # 7) 0 0) (GV 0 (2 # 7) 0) (GV 0 0 (2 # 7)))) 5
   with EOk s => length (s_atoms s) | _ => 0%nat end = 19%nat.
 Proof. vm_compute. reflexivity. Qed.
+
+(* the rejection condition of C18_mno_positive_partial IS met by positive radii under the signed formula
+   frac = sabc . recbase of the pinned source: cubic cell a = 7/2 turned by 180 degrees about (1,-1,0)
+   (recbase below), radii (5,5,5): every component is -10/7.  Replayed on the real code by the harness (case ROTATED). *)
+Example C18_signed_fractional_block_size_refuted :
+  let recbase := GM (GV 0 (-(2 # 7)) 0) (GV (-(2 # 7)) 0 0) (GV 0 0 (-(2 # 7))) in
+  let f := gvmmul QOps (GV 5 5 5) recbase in
+  x0 f <= 0 /\ x1 f <= 0 /\ x2 f <= 0.
+Proof. cbv zeta. repeat split; apply Qle_bool_iff; vm_compute; reflexivity. Qed.
